@@ -442,6 +442,13 @@ func runC15(ctx *core.Ctx) {
 	// 4. the environment tail of WithServicesEnabled on services with env files (real files; tie to C16's function)
 	c15GenEnvTail(ctx, ctx.Rng, ctx.Pick(3000, 40000))
 
+	// 5. the loader side (round 6): Options.Profiles / cli.WithDefaultProfiles → the partition of the loaded project
+	c15GenLoad(ctx)
+
+	// 6. sequence streams (round 6): operation lists of length 6–14, the invariant after every step on the real heap,
+	//    the final project against `run`, the composition theorems executed on the real code
+	c15GenSeq(ctx)
+
 	ctx.Wait()
 	ctx.Note("c15hist: %d steps compared exactly with the model and decided against the spec; %d select steps look like the pre-fix order-dependent loop (must be 0); %d steps returned 'no such service'; spec skipped on %d steps whose receiver is not a partition or has a Name that differs from its key (malformed stream)",
 		c15Steps.Load(), c15ViaOrder.Load(), c15ErrSteps.Load(), c15SpecSkipped.Load())
